@@ -34,6 +34,12 @@ theorem C12_gen_replica_sets :
     Gen.replicaRanges = ["Fetch:sto.readReplicas", "StatBlobs:sto.readReplicas", "ReceiveBlob:sto.replicas",
       "RemoveBlobs:sto.replicas", "EnumerateBlobs:sto.readReplicas"] := rfl
 
+/-- `Fetch` returns on the first success, remembers the first error that is not "not exist", and
+returns it after the loop (fix b37d745) -/
+theorem C12_gen_fetch_shape :
+    Gen.replicaFetchShape = ["if err == nil", "return", "if failErr == nil && !errors.Is(err, os.ErrNotExist)",
+      "failErr = err", "if failErr != nil", "return nil, 0, failErr", "return"] := rfl
+
 /-- the comparisons of the merge: `tooLow` is "≤ lastSent", the scan replaces `lowest` only by a
 strictly smaller ref, the loop runs while `nSent < limit` -/
 theorem C12_gen_merge_shape :
@@ -248,18 +254,39 @@ theorem C12_receive_sound (nStores : Nat) (backends readBackends : List Nat) (mi
 the other read replicas do (down, or not holding it), and wherever in the list the holder is -/
 theorem C12_fetch_any_holder (reads : List Sub) (k : Bytes) :
     (∃ sz tried, fetch reads k = .ok sz tried) ↔ ∃ s ∈ reads, s.down = false ∧ s.store.has k = true :=
-  fetchLoop_ok_iff k reads none 0
+  fetchLoop_ok_iff k reads none none 0
 
 /-- what is handed out is what a reachable read replica holds; with a non-empty read list (guaranteed by
 the constructor) a miss is an error, never `(nil, 0, nil)` -/
 theorem C12_fetch_result_sound (reads : List Sub) (k : Bytes) :
     (∀ sz tried, fetch reads k = .ok sz tried → ∃ s ∈ reads, s.down = false ∧ s.store.get? k = some sz) ∧
     (reads ≠ [] → fetch reads k ≠ .nilNil) :=
-  ⟨fun sz tried h => fetchLoop_ok_size k reads none 0 sz tried h,
-   fun h => fetchLoop_ne_nilNil k reads none 0 (Or.inl h)⟩
+  ⟨fun sz tried h => fetchLoop_ok_size k reads none none 0 sz tried h,
+   fun h => fetchLoop_ne_nilNil k reads none none 0 (Or.inl h)⟩
 
 example : fetch [⟨[([9], 3)], true⟩, ⟨[], false⟩, ⟨[([9], 3)], false⟩] [9] = .ok 3 3 := by decide
-example : fetch [⟨[([9], 3)], true⟩, ⟨[], false⟩] [9] = .err .notExist 2 := by decide
+
+/-- **a miss is "not exist" only if every read replica answered "not exist"; if some read replica
+failed and none served the blob, the answer is that failure** (the guarantee of fix b37d745, F-C12-2):
+a replica that is down might hold the blob, so the caller is not told that the blob is missing -/
+theorem C12_fetch_miss_classified (reads : List Sub) (k : Bytes) :
+    (∀ tried, fetch reads k = .err .notExist tried → ∀ s ∈ reads, s.fetch k = .error .notExist) ∧
+    ((∃ s ∈ reads, s.down = true) → (¬ ∃ s ∈ reads, s.down = false ∧ s.store.has k = true) →
+      ∃ tried, fetch reads k = .err .down tried) := by
+  constructor
+  · intro tried h
+    exact (fetchLoop_notExist k reads none none 0 tried (by simp) h).2
+  · intro hd hno
+    exact fetchLoop_down k reads none none 0 (fun s hs h => hno ⟨s, hs, h⟩) (Or.inr ⟨rfl, hd⟩)
+
+example : fetch [⟨[([9], 3)], true⟩, ⟨[], false⟩] [9] = .err .down 2 := by decide
+example : fetch [⟨[], false⟩, ⟨[([8], 1)], false⟩] [9] = .err .notExist 2 := by decide
+
+/-- the old `Fetch` returned the LAST error: a down replica holding the blob followed by a healthy one
+without it made the blob look missing -/
+theorem C12_fetch_old_miss_counterexample :
+    fetchOld [⟨[([9], 3)], true⟩, ⟨[], false⟩] [9] = .err .notExist 2 ∧
+    fetch [⟨[([9], 3)], true⟩, ⟨[], false⟩] [9] = .err .down 2 := by decide
 
 /-! ## StatBlobs -/
 
